@@ -187,6 +187,7 @@ func (x *c01) run(kind, keyHint, src string, b map[string]any, maxColl int, bdes
 
 func runC01(c *core.Ctx) {
 	x := &c01{c: c, e: liquid.NewEngine()}
+	x.typeSequences()
 	x.filterMatrix()
 	x.operatorMatrix()
 	x.hostile()
@@ -309,7 +310,7 @@ func (x *c01) operatorMatrix() {
 		{"contains", "{% if a contains b %}T{% else %}F{% endif %}", true}, {"and", "{{ a and b }}", true}, {"or", "{% if a or b %}T{% endif %}", true},
 		{"range", "{% for i in (a..b) limit: 3 %}{{ i }}{% endfor %}", true}, {"rangejoin", "{{ (a..b) | first }}", true},
 		{"index", "{{ a[b] }}", true}, {"indexprop", "{{ a[b].size }}{{ a[b][b] }}", true},
-		{"props", "{{ a.size }}{{ a.first }}{{ a.last }}{{ a.absent }}{{ a.k }}{{ a.Name }}{{ a.private }}{{ a.tagged }}{{ a.Nested.Items[0] }}{{ a.M.k }}", false},
+		{"props", "{{ a.size }}{{ a.first }}{{ a.last }}{{ a.absent }}{{ a.k }}{{ a.Name }}{{ a.private }}{{ a.tagged }}{{ a.Nested.Items[0] }}{{ a.M.k }}{{ a.A }}{{ a.B }}{{ a.Count }}", false},
 		{"print", "{{ a }}", false}, {"for", "{% for x in a %}{{ x }}{{ forloop.index }}{% else %}E{% endfor %}", false},
 		{"forlimit", "{% for x in a limit: b %}{{ x }}{% endfor %}", true}, {"foroffset", "{% for x in a reversed offset: b %}{{ x[0] }}{% endfor %}", true},
 		{"tablerow", "{% tablerow x in a cols: b %}{{ x }}{% endtablerow %}", true}, {"tablerow1", "{% tablerow x in a %}{{ x }}{% endtablerow %}", false},
@@ -484,4 +485,51 @@ func asInt64(x any) (int64, bool) {
 		return int64(rv.Uint()), true
 	}
 	return 0, false
+}
+
+// typeSequences renders property lookups on struct-like values of many Go types one after the other in
+// ONE process, in an order that differs per worker and runs before anything else touches the library:
+// state remembered per type (caches keyed by type name, lazily built tables) must not leak between types.
+func (x *c01) typeSequences() {
+	c := x.c
+	src := "{{ a.Name }}{{ a.A }}{{ a.B }}{{ a.Count }}{{ a.tagged }}{{ a.Items[0] }}{{ a.M.k }}{{ a.size }}{{ a.private }}{{ a.Nested.Name }}{{ a[\"A\"] }}{% if a contains \"B\" %}c{% endif %}"
+	tpl, pr := core.ParsePlain(x.e, src)
+	if !pr.OK() {
+		x.judge("type-sequence", "parse", src, func() string { return "" }, pr)
+		return
+	}
+	var names []string
+	for _, u := range gen.PlainDataUniverse() {
+		if rv := reflect.ValueOf(u.Go); rv.IsValid() {
+			k := rv.Kind()
+			if k == reflect.Ptr && !rv.IsNil() {
+				k = rv.Elem().Kind()
+			}
+			if k == reflect.Struct || k == reflect.Map {
+				names = append(names, u.Name)
+			}
+		}
+	}
+	for round := 0; round < 3; round++ {
+		r := core.NewRand(c.Seed, 0xC01, uint64(c.Shard), uint64(round))
+		order := r.Perm(len(names))
+		for _, oi := range order {
+			var val any
+			for _, u := range gen.PlainDataUniverse() {
+				if u.Name == names[oi] {
+					val = u.Go
+				}
+			}
+			desc := fmt.Sprintf("type-sequence(worker %d, round %d): a=%s", c.Shard, round, names[oi])
+			if !c.Begin(desc + " :: " + src) {
+				continue
+			}
+			verifhook.SetBudget(100000)
+			res := core.Render(tpl, map[string]any{"a": val})
+			verifhook.SetBudget(0)
+			c.Obs("type_sequence_cases", 1)
+			c.Distinct("ts", desc)
+			x.judge("type-sequence", names[oi], src, func() string { return desc + " " + gen.Describe(val) }, res)
+		}
+	}
 }
